@@ -206,8 +206,10 @@ var (
 	subs      = []string{"", "", "", "status", "log", "scale"}
 	names     = []string{"", "n1", "n2", "nginx"}
 	users     = []string{"admin", "admin1", "bob", "alice", "system:serviceaccount:kube-system:sa1", "system:serviceaccount:default:sa2", "system:kube-scheduler",
-		"arn:aws:iam::1:role/admin", "oidc:https://issuer.example/alice", "admin/ops", "bob/"}
-	ugroups   = []string{"system:authenticated", "system:masters", "dev", "ops", "system:serviceaccounts"}
+		"arn:aws:iam::1:role/admin", "oidc:https://issuer.example/alice", "admin/ops", "bob/",
+		// case variant, inner blank, non-ASCII, very long (quantifier audit: "every request attribute tuple")
+		"Bob", "bob smith", "用户甲", strings.Repeat("u", 300)}
+	ugroups   = []string{"system:authenticated", "system:masters", "dev", "ops", "system:serviceaccounts", "DEV", "dév", strings.Repeat("g", 300)}
 	paths     = []string{"/healthz", "/healthz/etcd", "/version", "/metrics", "/apis", "/", "/readyz/x/y"}
 )
 
